@@ -22,6 +22,8 @@ TIMEX_MOD = sys.modules['datatypes_timex_expression.timex']
 REAL_FIXED = TimexDateHelpers.fixed_format_number
 TimexDateHelpers.fixed_format_number = staticmethod(digits.fixed)
 TIMEX_MOD.int = digits.unint
+# nothing in the parse/format pipeline compares two rendered numbers with each other, so placeholders are merged by identity only
+digits.SEMANTIC_MERGE[0] = False
 
 
 class Amt:
